@@ -198,6 +198,10 @@ M("dm1_cycle_ignores_ca_state", ["C13"], "D39 reverted: the DM1 cycle calls send
 M("dm14_client_state_after_send", ["C17"], "D40 reverted (read): WAIT_FOR_SEED set after the request is written",
   ("j1939/Dm14Query.py", "        self.command = Command.READ\n        self._ca.subscribe(self._parse_dm15)\n        # state first: the answer may be processed before the send call returns\n        self.state = QueryState.WAIT_FOR_SEED\n        self._send_dm14(self.user_level)\n",
    "        self.command = Command.READ\n        self._ca.subscribe(self._parse_dm15)\n        self._send_dm14(self.user_level)\n        self.state = QueryState.WAIT_FOR_SEED\n"))
+M("tp21_abort_matched_without_pgn", ["C10"], "D42 reverted (J1939-21): abort matched by address pair only",
+  ("j1939/j1939_21.py", "self._snd_buffer[buffer_hash]['pgn'] == pgn and ", ""))
+M("tp22_abort_matched_without_pgn", ["C10"], "D42 reverted (J1939-22): abort matched by address pair and session number only",
+  ("j1939/j1939_22.py", "self._snd_buffer[buffer_hash]['pgn'] == pgn and ", ""))
 M("tp21_grant_ignores_rts_limit", ["C09", "C03"], "responder grant ignores the RTS limit",
   ("j1939/j1939_21.py", "            max_num_packages = min(max_num_packages, num_packages)\n", "            max_num_packages = num_packages\n"))
 M("tp21_hold_ignored", ["C09"], "zero-packet CTS treated as 'continue'",
